@@ -162,3 +162,28 @@ package openflow13
 //@   ensures r != nil && fresh(r) && r.Class == 1 && r.Field == 105 && r.HasMask && r.Length == 8
 //@   ensures typeis(r.Value, *Uint32Message) && typeis(r.Mask, *Uint32Message)
 //@   ensures r.Value.(*Uint32Message).Data == states.data && r.Mask.(*Uint32Message).Data == states.mask
+
+// ---------------------------------------------------------------------------------------------
+// C15 match-field registry: OXM/NXM TLV header word = class:16 | field:7 | hasmask:1 | length:8
+// (OpenFlow 1.3.5 section 7.2.3.2). The lookup contract is generated: zz_contracts_oxm_verif.go.
+
+//@ property C15 min-obligations 130
+
+//@ func (*MatchField).MarshalHeader(m) (w) [C15]
+//@   requires m.Field < 128
+//@   ensures w == uint32(m.Class)<<16 | uint32(m.Field)<<9 | ite(m.HasMask, uint32(256), uint32(0)) | uint32(m.Length)
+
+//@ func (*MatchField).UnmarshalHeader(m, data) (err) [C15]
+//@   modifies m.Class, m.Field, m.HasMask, m.Length
+//@   ensures len(data) < 4 ==> err != nil
+//@   ensures len(data) >= 4 ==> err == nil && m.Class == be16(data, 0) && m.Field == u8(data, 2)>>1 && m.HasMask == (u8(data, 2)&1 == 1) && m.Length == u8(data, 3)
+
+//@ func lemmaOXMHeaderUnpackPack(w) (r) [C15]
+//@   ensures r == w
+
+//@ func lemmaOXMHeaderPackUnpack(class, field, hasMask, length) (c, f, h, l, err) [C15]
+//@   requires field < 128
+//@   ensures err == nil && c == class && f == field && h == hasMask && l == length
+
+//@ func lemmaOXMLookupIndependent(name, hasMask) (ok) [C15 C14]
+//@   ensures ok
